@@ -11,7 +11,7 @@
  *   - mmap is wrapped: the PROT_NONE reservation that qb_sys_circular_mmap makes for the ring data is enlarged by a
  *     17 GiB PROT_NONE guard, so EVERY uint32 word index outside the double mapping faults; the SIGSEGV/SIGBUS
  *     handler reports "fault ring+<byte offset>" and exits 97 (ASan is blind to mmap'ed memory).
- *   - SIGABRT (assert) handler: "fault abort", exit 96.
+ *   - SIGABRT (assert) handler: "fault abort", exit 96; alarm(4) around every print: "fault timeout", exit 95.
  *   - qb_rb_chunk_read, qb_vsnprintf_deserialize[_n], qb_vsnprintf_serialize are wrapped (cross-object calls inside the
  *     archive) only to LOG what print_from_file hands to them / gets back (oracle recording); they call through.
  *
@@ -104,6 +104,10 @@ static void on_fault(int sig, siginfo_t *si, void *ctx)
 	if (sig == SIGABRT) {
 		wr("fault abort\n");
 		_exit(96);
+	}
+	if (sig == SIGALRM) {
+		wr("fault timeout (the printer did not return within 4 s)\n");
+		_exit(95);
 	}
 	if (ring_base && (char *)si->si_addr >= ring_base && (char *)si->si_addr < ring_base + ring_len + GUARD_BYTES) {
 		snprintf(b, sizeof b, "fault ring+%llu (mapping is %llu bytes)\n",
@@ -380,8 +384,10 @@ static void do_print(int errno0)
 	n_ev = 0;
 	chunk_base = NULL;
 	rec_on = 1;
+	alarm(4);
 	errno = errno0;
 	rc = qb_log_blackbox_print_from_file(path);
+	alarm(0);
 	rec_on = 0;
 	fflush(stdout);
 	dup2(saved_stdout, 1);
@@ -447,6 +453,7 @@ int main(void)
 	sigaction(SIGSEGV, &sa, NULL);
 	sigaction(SIGBUS, &sa, NULL);
 	sigaction(SIGABRT, &sa, NULL);
+	sigaction(SIGALRM, &sa, NULL);
 
 	if (getenv("VB_NO_GUARD")) {
 		guard_on = 0;
@@ -455,6 +462,8 @@ int main(void)
 	    mount(NULL, "/", NULL, MS_REC | MS_PRIVATE, NULL) == 0 &&
 	    mount("vb", "/dev/shm", "tmpfs", 0, "size=256m") == 0) {
 		private_shm = 1;
+		/* SOCKETDIR is the fall-back directory of qb_sys_mmap_file_open: make the census there private as well */
+		(void)mount("vb", "/var/run", "tmpfs", 0, "size=16m");
 	}
 	setvbuf(stdout, NULL, _IOFBF, 1 << 16);
 
